@@ -165,7 +165,7 @@ def run_case(ns, mon, c):
                 "cover": {"scenarios": ["linear-cost:" + c.get("shape", "chain")]}}
     elif kind == "untracked":
         n = c["n"]
-        w = T(rng.standard_normal(8), requires_grad=(c["mode"] == "no_grad"))
+        w = T(rng.standard_normal((1, 8) if c["mode"] == "no_grad-linear" else 8), requires_grad=(c["mode"] == "no_grad"))
         gfix = T(rng.standard_normal(8))
         par = T(rng.standard_normal(8) * 1e-3, requires_grad=True)          # a parameter that requires grad, used inside untracked loops
         W = T(np.eye(8) * 0.999, requires_grad=True)
@@ -177,9 +177,9 @@ def run_case(ns, mon, c):
             if c["mode"] == "detached-mix":
                 return (w * 0.999 + gfix * 0.001).detach() * 1.0
             if c["mode"] == "no_grad-with-parameter":
-                return w * 0.999 + par                      # the loop-carried value is a direct operand together with a requiring parameter
+                return w + par                              # the loop-carried value is a direct operand together with a requiring parameter
             if c["mode"] == "no_grad-linear":
-                return sg.linear(w.reshape((1, 8)), W).reshape((8,))
+                return sg.linear(w, W)                      # (1,8) carried through a layer whose weight requires grad
             return w - gfix * 0.001
         step = max(1, n // 10)
         if c["mode"] == "inside-retain_grads":
